@@ -31,6 +31,8 @@ class OpsMixin:
         new_m = None
         try:
             new_m = model_fn(new_id)
+        except X.NotTotal:
+            raise Skip("window order would not be total in this table") from None
         except X.OutOfScope:
             expect = Expect(step.get("_oos_classes", OOS), "out_of_scope")
         except Expect as e:
